@@ -25,8 +25,14 @@ MIN_SUCCESSFUL = 5  # "five" of the property text; Lean side lemma C13.gen_minSu
 # ------------------------------------------------------------------ generators
 
 def gen_matrix(rng, n, m, style=None):
-  style = style or rng.choice(["ints", "ints", "tiny_ints", "reals", "dups", "chain", "antichain", "halfreal", "constcol"])
-  if style == "ints":
+  style = style or rng.choice(["ints", "ints", "tiny_ints", "reals", "dups", "chain", "antichain", "halfreal", "constcol", "scales", "scales"])
+  if style == "scales":
+    # metrics of very different magnitude (objective values are arbitrary reals: 1e8 next to 1e-9), small alphabets per
+    # column so that rows tie in one metric and differ by a hair, relative to the other column, in another
+    sc = [10 ** rng.choice([-9, -6, -3, 0, 3, 6, 8, rng.uniform(-9, 9)]) * rng.choice([1.0, 1.0, -1.0]) for _ in range(m)]
+    k = rng.choice([1, 2, 3])
+    rows = [[float(rng.randint(0, k) + (1 if rng.random() < 0.5 else 0)) * sc[j] for j in range(m)] for _ in range(n)]
+  elif style == "ints":
     k = rng.choice([2, 3, 5, 9])
     rows = [[float(rng.randint(0, k)) for _ in range(m)] for _ in range(n)]
   elif style == "tiny_ints":
